@@ -575,9 +575,11 @@ func (w *faithWalker) value(t *ast.Type, sub ast.SelectionSet, x any, d dumpNode
 			return
 		}
 		ty, _ := v["type"].(string)
-		if strings.HasSuffix(ty, "sup.Money") || strings.HasSuffix(ty, "sup.Blob") {
-			return // bound with only one of marshaler/unmarshaler: wire format differs between reading and writing by design
+		if strings.HasSuffix(ty, "sup.Money") {
+			return // bound with an unmarshaler only: what the dump writes (default JSON) is not the wire format it read
 		}
+		// sup.Blob is bound with a marshaler only: it is READ with default JSON (base64), which is also what the dump
+		// writes, so the value must be there
 		got := v["v"]
 		if !sameScalar(x, got, strings.Contains(ty, "sup.")) {
 			gj, _ := json.Marshal(got)
